@@ -253,15 +253,26 @@ pub fn run_c20() {
     let (hst, hvio) = crate::hdrive::c20_part(rep.thorough());
     rep.set("handler_level_states", hst.states);
     rep.set("handler_level_executions", hst.executions);
-    for k in ["timer_steps_with_a_held_request", "responses_put_on_the_wire"] {
+    for k in ["timer_steps_with_a_held_request", "responses_put_on_the_wire", "responses_of_exactly_1280_bytes"] {
         rep.set(&format!("handler_level_{k}"), hst.counters.get(k).copied().unwrap_or(0));
     }
     if !hst.exhaustive {
         rep.set("exhaustive", false);
         rep.set("cap", hst.cap.clone().unwrap_or_default());
     }
-    for v in found.into_iter().chain(hvio.into_iter()) {
+    // ... and the attacker worlds: a request enclosed in a handshake (peer's record verifiable or
+    // not) is delivered under a session that is still there afterwards, and its answer is sent
+    let thorough_c20 = rep.thorough();
+    let (ast, avio, _) = crate::attack::explore("C20", thorough_c20, mc::budget(thorough_c20, 20.0, 0.3), if thorough_c20 { 3 } else { 2 });
+    rep.set("attacker_worlds_states", ast.states);
+    if !ast.exhaustive {
+        rep.set("exhaustive", false);
+    }
+    for v in found.into_iter().chain(hvio.into_iter()).chain(avio.into_iter()) {
         rep.violation(v);
+    }
+    if hst.counters.get("responses_of_exactly_1280_bytes").copied().unwrap_or(0) == 0 {
+        rep.vacuous("C20 vacuous: no response of exactly 1280 bytes in the handler-level worlds");
     }
     if hst.counters.get("timer_steps_with_a_held_request").copied().unwrap_or(0) == 0 {
         rep.vacuous("C20 vacuous: no timer step with a held request in the handler-level worlds");
@@ -948,6 +959,8 @@ pub fn run_c17() {
     ];
     cfgs.push(VCfg { dual: false, min: 2, voters: vec![0, 0, 1], addrs: 2, with_fail: false, burst: true, slow_ping: false, seed: vec![] });
     cfgs.push(VCfg { dual: false, min: 2, voters: vec![0, 0, 0], addrs: 2, with_fail: false, burst: false, slow_ping: true, seed: vec![] });
+    // dual stack with a minimum above 2 (a per-family halving of the minimum would show)
+    cfgs.push(VCfg { dual: true, min: 3, voters: vec![0, 0, 0, 0], addrs: 2, with_fail: false, burst: false, slow_ping: false, seed: vec![] });
     // contested starting states: two addresses with 2:2 and 3:2 votes among five eligible voters
     cfgs.push(VCfg { dual: false, min: 2, voters: vec![0, 0, 0, 0, 0], addrs: 3, with_fail: false, burst: false, slow_ping: false, seed: vec![VEv::Pong(0, 0), VEv::Pong(1, 1), VEv::Pong(2, 0), VEv::Pong(3, 1)] });
     cfgs.push(VCfg { dual: false, min: 3, voters: vec![0, 0, 0, 0, 0], addrs: 3, with_fail: false, burst: false, slow_ping: false, seed: vec![VEv::Pong(0, 0), VEv::Pong(1, 1), VEv::Pong(2, 0), VEv::Pong(3, 1), VEv::Pong(4, 0), VEv::PingRound] });
@@ -1042,6 +1055,29 @@ pub fn c16_service_level() -> (u64, Vec<Violation>) {
                 let key = util::key(k);
                 util::enr(&key, &util::EnrSpec { seq: 1, ip4: Some((Ipv4Addr::new(10, 77, 0, (k % 250) as u8 + 1), 9000)), ip6: Some((std::net::Ipv6Addr::new(0x2001, 0xdb8, 0, 0, 0, 0, 1, k), 9000)), pad: 0 })
             };
+            // second family of records (IPv6 and dual-stack modes): an IPv4 address without an IPv4 UDP
+            // port (reachable over IPv6 only) still counts towards its /24
+            let mk_noudp4 = |k: u16| -> Enr {
+                let key = util::key(k);
+                let mut b = Enr::builder();
+                b.seq(1);
+                b.ip4(Ipv4Addr::new(10, 78, 0, (k % 250) as u8 + 1));
+                b.ip6(std::net::Ipv6Addr::new(0x2001, 0xdb8, 0, 0, 0, 0, 2, k));
+                b.udp6(9000);
+                b.build(&key).expect("record")
+            };
+            if mode != 0 {
+                if let Some(ks) = pool.by_distance.get(&255) {
+                    for (j, k) in ks.iter().skip(2).take(3).enumerate() {
+                        let _ = node.discv5.add_enr(mk_noudp4(*k));
+                        let same: usize = node.discv5.table_entries().iter().filter(|(id, e, _)| util::log2_distance(&node.id, id) == 255 && e.ip4().map(|i| i.octets()[..3] == [10, 78, 0]).unwrap_or(false)).count();
+                        if same > 2 {
+                            let name = ["Ipv4", "Ipv6", "DualStack"][mode as usize];
+                            return Err(Violation { clause: "a bucket never holds more than 2 nodes sharing a /24".into(), key: format!("service:bucket-limit:no-udp4:{name}"), detail: format!("listen mode {name} with ip_limit: bucket 255 holds {same} nodes of 10.78.0.0/24 (records with an IPv4 address but no IPv4 UDP port) after {} add_enr calls", j + 1), replay: json!({"engine":"ssim","check":"C16","listen_mode":name}) });
+                        }
+                    }
+                }
+            }
             let mut n = 0u64;
             // three of one bucket, then further buckets up to 12 records of the /24
             let mut order: Vec<u16> = vec![];
